@@ -306,6 +306,25 @@ def fault_cases(ctx, index):
         for cut in range(0, len(data), step):
             fault = {"kind": "archive-truncated", "at": cut, "prefix_rows": None}
             check_fault_bytes(ctx, model, store, data[:cut], [], fault, None)
+        # the archive's directory intact, but bytes inside the compressed data of a part overwritten
+        import struct
+        import zipfile as _zipfile
+
+        with _zipfile.ZipFile(io.BytesIO(data)) as archive:
+            infos = [i for i in archive.infolist() if i.filename in ("content.xml", "xl/worksheets/sheet1.xml", "xl/sharedStrings.xml", "xl/workbook.xml")
+                     and i.compress_type == _zipfile.ZIP_DEFLATED and i.compress_size >= 8]
+        for info in infos:
+            name_length, extra_length = struct.unpack("<HH", data[info.header_offset + 26:info.header_offset + 30])
+            start = info.header_offset + 30 + name_length + extra_length
+            spots = sorted(set([0, 1, info.compress_size // 3, info.compress_size // 2, info.compress_size - 5] +
+                               list(range(2, info.compress_size - 4, 7 if ctx.tier == "thorough" else 61))))
+            for spot in spots:
+                for filler in (b"\xff\xff\xff\xff", b"\x00\x00\x00\x00"):
+                    if data[start + spot:start + spot + 4] == filler:
+                        continue
+                    damaged = data[:start + spot] + filler + data[start + spot + 4:]
+                    fault = {"kind": "compressed-part-damaged", "part": info.filename, "at": spot, "prefix_rows": None}
+                    check_fault_bytes(ctx, model, store, damaged, [], fault, None)
         if kind != "ods":
             # the archive intact, but a part inside it cut at a tag boundary (worksheet, shared strings, workbook)
             import zipfile
